@@ -193,7 +193,11 @@ func (c *FCtx) execStmt(st *State, s ast.Stmt, rest []ast.Stmt) (flows []Flow) {
 		if c.inlineDepth > 0 {
 			rp = token.NoPos
 		}
-		return []Flow{{st: st, kind: fReturn, results: res, pos: c.eng.pos(x), retPos: rp}}
+		var rnode ast.Node
+		if c.inlineDepth == 0 {
+			rnode = x
+		}
+		return []Flow{{st: st, kind: fReturn, node: rnode, results: res, pos: c.eng.pos(x), retPos: rp}}
 	case *ast.BranchStmt:
 		switch x.Tok {
 		case token.BREAK:
